@@ -691,7 +691,7 @@ impl<'ast, 'r, 'a> Visit<'ast> for Collector<'r, 'a> {
                 self.rw.log.push(format!("R30 let {name} = {m}.entry({k}).or_default() -> __entry_or_default; {name}.insert(..) -> __entry_insert"));
                 self.edits.push(Edit { range: rng(s), text: format!("__entry_or_default(&mut {m}, {k});"), prio: 0 });
             }
-            syn::Stmt::Local(l) if self.rw.on("R3") || self.rw.on("R16") || self.rw.on("R3f") || self.rw.on("R17") || self.rw.on("R26") || self.rw.on("R33") || self.rw.on("R3m") || self.rw.on("R44") || self.rw.on("R48") || self.rw.on("R48v") => {
+            syn::Stmt::Local(l) if self.rw.on("R3") || self.rw.on("R16") || self.rw.on("R3f") || self.rw.on("R17") || self.rw.on("R26") || self.rw.on("R33") || self.rw.on("R3m") || self.rw.on("R44") || self.rw.on("R48") || self.rw.on("R48v") || self.rw.on("R60") => {
                 if self.rw.on("R16") {
                     if let Some(t) = self.try_r16(l) {
                         self.edits.push(Edit { range: rng(s), text: t, prio: 0 });
@@ -712,6 +712,12 @@ impl<'ast, 'r, 'a> Visit<'ast> for Collector<'r, 'a> {
                 }
                 if self.rw.on("R48") || self.rw.on("R48v") {
                     if let Some(t) = self.try_r48(l) {
+                        self.edits.push(Edit { range: rng(s), text: t, prio: 0 });
+                        return;
+                    }
+                }
+                if self.rw.on("R60") {
+                    if let Some(t) = self.try_r60(l) {
                         self.edits.push(Edit { range: rng(s), text: t, prio: 0 });
                         return;
                     }
@@ -979,6 +985,59 @@ impl<'ast, 'r, 'a> Visit<'ast> for Collector<'r, 'a> {
                 let recv = self.render(&m.receiver);
                 self.rw.log.push("R58 V.dedup_by_key(|(literal, description)| (*literal, *description)) -> __dedup_by_pair(&mut V)".to_string());
                 self.edits.push(Edit { range: rng(e), text: format!("__dedup_by_pair(&mut {recv})"), prio: 0 });
+            }
+            // R61: X.sort_unstable_by(|(left, _), (right, _)| { (left.len(), left).cmp(&(right.len(), right)) }) -> __indexset_sort_len_text(&mut X)
+            syn::Expr::MethodCall(m) if self.rw.on("R61") && m.method == "sort_unstable_by" && m.args.len() == 1 => {
+                if norm(self.rw.text(&m.args[0])).replace(' ', "") != "|(left,_),(right,_)|{(left.len(),left).cmp(&(right.len(),right))}" {
+                    die("unsupported", &format!("{}: R61 side condition: the comparator is not `|(left, _), (right, _)| {{ (left.len(), left).cmp(&(right.len(), right)) }}`", self.rw.fn_path));
+                }
+                let recv = self.render(&m.receiver);
+                self.rw.log.push("R61 X.sort_unstable_by(by length, then text) -> __indexset_sort_len_text(&mut X)".to_string());
+                self.edits.push(Edit { range: rng(e), text: format!("__indexset_sort_len_text(&mut {recv})"), prio: 0 });
+            }
+            // R62: X.reverse() -> __indexset_reverse(&mut X)   (typed stand-in: compiles only for the literal IndexSet)
+            syn::Expr::MethodCall(m) if self.rw.on("R62") && m.method == "reverse" && m.args.is_empty() => {
+                let recv = self.render(&m.receiver);
+                self.rw.log.push("R62 X.reverse() -> __indexset_reverse(&mut X)".to_string());
+                self.edits.push(Edit { range: rng(e), text: format!("__indexset_reverse(&mut {recv})"), prio: 0 });
+            }
+            // R63: E.into_iter().enumerate().map(|(I, PAT)| B).collect()   (E an IndexSet of Copy items)
+            //   -> { let __src = __indexset_into_vec(E); let mut __out = Vec::new(); for I in 0..__src.len() { let PAT = __src[I]; __out.push(B); } __out }
+            syn::Expr::MethodCall(m)
+                if self.rw.on("R63") && m.method == "collect" && m.args.is_empty()
+                    && is_method(&m.receiver, "map").map_or(false, |mp| mp.args.len() == 1
+                        && is_method(&mp.receiver, "enumerate").map_or(false, |en| en.args.is_empty() && is_method(&en.receiver, "into_iter").map_or(false, |ii| ii.args.is_empty()))) =>
+            {
+                let mp = is_method(&m.receiver, "map").unwrap();
+                let en = is_method(&mp.receiver, "enumerate").unwrap();
+                let ii = is_method(&en.receiver, "into_iter").unwrap();
+                let cl = match &mp.args[0] {
+                    syn::Expr::Closure(c) if c.capture.is_none() && c.inputs.len() == 1 && !closure_has_control_flow(&c.body) => c,
+                    _ => die("unsupported", &format!("{}: R63 side condition violated (not a plain one-parameter closure)", self.rw.fn_path)),
+                };
+                let (ipat, epat) = match &cl.inputs[0] {
+                    syn::Pat::Tuple(t) if t.elems.len() == 2 && matches!(&t.elems[0], syn::Pat::Ident(_)) => (self.rw.text(&t.elems[0]).to_string(), self.rw.text(&t.elems[1]).to_string()),
+                    _ => die("unsupported", &format!("{}: R63 side condition: the closure parameter is not `(index, pattern)`", self.rw.fn_path)),
+                };
+                let key = self.rw.next_key("R63");
+                let (iter, hdr, bs, be) = self.rw.loop_parts(&key);
+                let src = self.render(&ii.receiver);
+                let body = self.render(&cl.body);
+                // the element type of the collected vector: `@loop R63#Nc` with `@closure_sig Vec<..>` (rustc cannot infer it
+                // before the invariant mentions the elements)
+                let ckey = format!("{key}c");
+                let out_ty = self.rw.loops.iter().find(|l| l.key == ckey).and_then(|l| l.closure_sig.clone()).map(|t| format!(": {}", t.trim())).unwrap_or_default();
+                for l in self.rw.loops.iter_mut() { if l.key == ckey { l.used = true; } }
+                // `@proof loopafter R63#N`: proof text placed after the loop, inside the block (where the source vector is in scope)
+                let mut after = String::new();
+                for p in self.rw.proofs.iter_mut() {
+                    if p.anchor == key && p.mode == "loopafter" {
+                        p.used = true;
+                        after.push_str(&format!("\nproof {{\n{}}}\n", p.text));
+                    }
+                }
+                self.rw.log.push(format!("R63 E.into_iter().enumerate().map(..).collect() -> loop {key} over the vector of E's items"));
+                self.edits.push(Edit { range: rng(e), text: format!("{{ let __src = __indexset_into_vec({src}); let ghost __src_g = __src@; let mut __out{out_ty} = Vec::new(); for {ipat} in {iter}0..__src.len() {hdr}{{ {bs}let {epat} = __src[{ipat}]; __out.push({body}); {be}}} {after} __out }}"), prio: 0 });
             }
             // R52: M.keys().cloned().collect()  ->  __imap_key_set(&M)   (the key set of an inner map of the table; the
             // stand-in returns IndexSet<InpId>, so the rewritten text only compiles at that type)
@@ -1700,6 +1759,40 @@ impl<'r, 'a> Collector<'r, 'a> {
         }
         self.rw.log.push(format!("R48 let {name} = B.iter()..{} adapters...collect() -> loop {key} over __rb_vec", adapters.len()));
         Some(format!("let mut {name}: {vec_ty} = Vec::new(); let __bs_{name} = __rb_vec(&{src}); let ghost __bs_{name}_g = __bs_{name}@; for __p0 in {iter}__bs_{name} {hdr}{{ {bs}{open}{name}.push({cur_var});{close} {be}}}"))
+    }
+
+    /// R60: `let mut x: IndexSet<T> = P.elems().filter_map(|p| B).collect();`  (P an intern pool; `elems()` is a
+    /// stand-in returning the vector of the stored elements in order)
+    ///  -> `let mut x: IndexSet<T> = IndexSet::default(); let __es_x = P.elems(); let ghost __es_x_g = __es_x@;
+    ///      for p in __es_x { if let Some(__v) = B { x.insert(__v); } }`
+    /// (collect() into an IndexSet inserts the items in order; an item equal to a stored one is dropped)
+    fn try_r60(&mut self, l: &syn::Local) -> Option<String> {
+        let init = l.init.as_ref()?;
+        if init.diverge.is_some() {
+            return None;
+        }
+        let (name, ty) = self.local_name_ty(l)?;
+        let ty = ty?;
+        if !ty.replace(' ', "").starts_with("IndexSet<") {
+            return None;
+        }
+        let coll = is_method(&init.expr, "collect")?;
+        let fm = is_method(&coll.receiver, "filter_map")?;
+        let el = is_method(&fm.receiver, "elems")?;
+        let cl = match fm.args.get(0) {
+            Some(syn::Expr::Closure(c)) => c,
+            _ => return None,
+        };
+        if cl.capture.is_some() || cl.inputs.len() != 1 || closure_has_control_flow(&cl.body) {
+            die("unsupported", &format!("{}: R60 side condition violated (move closure / several params / control flow in body)", self.rw.fn_path));
+        }
+        let key = self.rw.next_key("R60");
+        let (iter, hdr, bs, be) = self.rw.loop_parts(&key);
+        let pat = self.rw.text(&cl.inputs[0]).to_string();
+        let pool = self.render(&el.receiver);
+        let body = self.render(&cl.body);
+        self.rw.log.push(format!("R60 let {name}: IndexSet = P.elems().filter_map(..).collect() -> loop {key} with insert"));
+        Some(format!("let mut {name}: {ty} = IndexSet::default(); let __es_{name} = {pool}.elems(); let ghost __es_{name}_g = __es_{name}@; for {pat} in {iter}__es_{name} {hdr}{{ {bs}if let Some(__v) = {body} {{ {name}.insert(__v); }} {be}}}"))
     }
 
     /// R44: `let x: BTreeMap<K, V> = SRC.iter().map(|PAT| (A, B)).collect();`  (SRC evaluates to a Vec)
